@@ -233,18 +233,21 @@ class LoadFacts:
         return T, F
 
     def window_params(self):
-        """(lower param, upper param) of _load: the parameters compared with the completion time"""
-        lo, up = set(), set()
-        for n in self.f.own_nodes():
-            T, _F = self.atoms(n)
-            for fact in T:
-                if fact[0] == 'lower':
-                    lo.add(fact[1])
-                if fact[0] == 'upper':
-                    up.add(fact[1])
-        if len(lo) != 1 or len(up) != 1:
-            raise AnalysisError(f'chronicle._load: cannot identify one lower and one upper window parameter (lower={sorted(lo)}, upper={sorted(up)})')
-        return lo.pop(), up.pop()
+        """(lower param, upper param) of _load: the parameters the completion time is compared with on the way to the
+        statement that keeps an entry (polarity of the tests taken into account)"""
+        c = self.__dict__.get('_wp')
+        if c is None:
+            lo, up = set(), set()
+            for _call, st in _Filter_sites(self):
+                for fact in st:
+                    if fact[0] == 'lower':
+                        lo.add(fact[1])
+                    if fact[0] == 'upper':
+                        up.add(fact[1])
+            if len(lo) != 1 or len(up) != 1 or lo == up:
+                raise AnalysisError(f'chronicle._load: cannot identify one lower and one upper window parameter (lower={sorted(lo)}, upper={sorted(up)})')
+            c = self.__dict__['_wp'] = (lo.pop(), up.pop())
+        return c
 
 
 # ---------------------------------------------------------------------------
@@ -852,3 +855,1280 @@ def _rule2(ctx, rep):
         kinds = {k for _c, _m, k in fl.dumps}
         if not {'loaded', 'fresh'} <= kinds and not any(m for _c, m, _k in fl.dumps):
             r.note(f'only the {sorted(map(str, kinds))} case reaches the write')
+
+
+# ---------------------------------------------------------------------------
+# path shapes (B.6) shared by R-C18-3 and R-C18-6
+
+_SEP_SYMS = ('external:os.path.sep', 'external:os.sep')
+
+
+def _strip(comps):
+    """drop the source of date fields: 'M2@day' -> 'M2'"""
+    return tuple(c.split('@')[0] for c in comps)
+
+
+def _date_field(e):
+    """X.year / X.month / X.day -> ('Y'|'M'|'D', text of X)"""
+    if isinstance(e, ast.Attribute) and e.attr in ('year', 'month', 'day'):
+        return {'year': 'Y', 'month': 'M', 'day': 'D'}[e.attr], norm(e.value)
+    return None
+
+
+def _padded(kind, spec):
+    """component for a date field rendered with a format spec (None = str())"""
+    if kind == 'Y':
+        return 'Y' if spec in (None, '', 'd', '04d', '04', '4d', '4') else None  # years >= 1000 render as 4 digits either way
+    if spec in ('02d', '02'):
+        return kind + '2'
+    if spec in (None, '', 'd'):
+        return kind  # not zero padded
+    return None
+
+
+class PathDom:
+    """abstract value of a path expression: tuple of components
+    root:<symbol> | lit:<text> | Y@src M2@src D2@src (zero padded date fields) | M@src D@src (unpadded) |
+    fn:<literal tail> (file name ending in that literal) | ent:<dir> (an entry of os.listdir(dir)) | ?<text> (unknown)"""
+
+    def __init__(self, prog, func):
+        self.prog, self.func = prog, func
+        self.iso_sites = []  # (split separator, replacement separator ok?, node)
+
+    def is_sep(self, e):
+        if isinstance(e, ast.Constant):
+            return e.value == '/'
+        return (self.prog.resolve_in(e, self.func) or '') in _SEP_SYMS
+
+    def ev(self, e, st):
+        if isinstance(e, ast.Name):
+            v = sget(st, ('p', e.id))
+            return v if v is not None else ('?' + e.id,)
+        if isinstance(e, ast.Constant) and isinstance(e.value, str):
+            return tuple('lit:' + x for x in e.value.split('/') if x)
+        if isinstance(e, ast.Attribute):
+            sym = self.prog.resolve_in(e, self.func) or ''
+            if sym.startswith('dawgie.'):
+                return ('root:' + sym,)
+            return ('?' + norm(e),)
+        if isinstance(e, ast.JoinedStr):
+            vals = e.values
+            if len(vals) == 1 and isinstance(vals[0], ast.FormattedValue) and vals[0].conversion == -1:
+                df = _date_field(vals[0].value)
+                spec = None
+                if vals[0].format_spec is not None:
+                    fs = vals[0].format_spec
+                    spec = fs.values[0].value if len(fs.values) == 1 and isinstance(fs.values[0], ast.Constant) else '?'
+                if df:
+                    c = _padded(df[0], spec)
+                    if c:
+                        return (f'{c}@{df[1]}',)
+            if vals and isinstance(vals[-1], ast.Constant) and '/' not in str(vals[-1].value) and not any(
+                isinstance(x, ast.Constant) and '/' in str(x.value) for x in vals
+            ) and not any(isinstance(x, ast.FormattedValue) and _date_field(x.value) for x in vals):
+                return ('fn:' + vals[-1].value,)
+            return ('?' + norm(e)[:40],)
+        if isinstance(e, ast.BinOp) and isinstance(e.op, ast.Mod) and isinstance(e.left, ast.Constant) and e.left.value in ('%02d', '%d', '%04d'):
+            df = _date_field(e.right)
+            c = _padded(df[0], e.left.value[1:]) if df else None
+            if c:
+                return (f'{c}@{df[1]}',)
+        if isinstance(e, ast.BinOp) and isinstance(e.op, ast.Add) and isinstance(e.right, ast.Constant) and isinstance(e.right.value, str) and '/' not in e.right.value:
+            return ('fn:' + e.right.value,)
+        if isinstance(e, ast.Call):
+            sym = self.prog.resolve_in(e.func, self.func) or ''
+            if sym == 'external:os.path.join' and not e.keywords:
+                out = ()
+                for a in e.args:
+                    if isinstance(a, ast.Starred):
+                        return ('?' + norm(e)[:40],)
+                    out += self.ev(a, st)
+                return out
+            if sym == 'external:str' and len(e.args) == 1:
+                df = _date_field(e.args[0])
+                c = _padded(df[0], None) if df else None
+                if c:
+                    return (f'{c}@{df[1]}',)
+            f = e.func
+            if isinstance(f, ast.Attribute):
+                # str(X.month).zfill(2)
+                if f.attr == 'zfill' and len(e.args) == 1 and isinstance(e.args[0], ast.Constant) and e.args[0].value == 2:
+                    inner = self.ev(f.value, st)
+                    if len(inner) == 1 and inner[0].split('@')[0] in ('M', 'D'):
+                        k, _, src = inner[0].partition('@')
+                        return (f'{k}2@{src}',)
+                # '{:02d}'.format(X.month)
+                if f.attr == 'format' and isinstance(f.value, ast.Constant) and f.value.value in ('{:02d}', '{:02}', '{}', '{:d}', '{:04d}') and len(e.args) == 1:
+                    df = _date_field(e.args[0])
+                    c = _padded(df[0], f.value.value[2:-1] or None) if df else None
+                    if c:
+                        return (f'{c}@{df[1]}',)
+                # <entry>['timing']['completed'].split(S)[0].replace('-', SEP): the ISO date text as three directories
+                if (
+                    f.attr == 'replace'
+                    and len(e.args) == 2
+                    and isinstance(e.args[0], ast.Constant)
+                    and e.args[0].value == '-'
+                    and isinstance(f.value, ast.Subscript)
+                    and isinstance(f.value.slice, ast.Constant)
+                    and f.value.slice.value == 0
+                    and isinstance(f.value.value, ast.Call)
+                    and isinstance(f.value.value.func, ast.Attribute)
+                    and f.value.value.func.attr == 'split'
+                    and len(f.value.value.args) == 1
+                    and isinstance(f.value.value.args[0], ast.Constant)
+                    and _is_completed_sub(f.value.value.func.value)
+                ):
+                    if not any(n is e for _a, _b, n in self.iso_sites):
+                        self.iso_sites.append((f.value.value.args[0].value, self.is_sep(e.args[1]), e))
+                    if self.is_sep(e.args[1]):
+                        return ('Y@completed', 'M2@completed', 'D2@completed')
+                # X.strftime('%Y/%m/%d') and pieces of it
+                if f.attr == 'strftime' and len(e.args) == 1 and isinstance(e.args[0], ast.Constant) and isinstance(e.args[0].value, str):
+                    m = {'%Y': 'Y', '%m': 'M2', '%d': 'D2'}
+                    parts = [x for x in e.args[0].value.split('/') if x]
+                    if parts and all(x in m for x in parts):
+                        return tuple(f'{m[x]}@{norm(f.value)}' for x in parts)
+        return ('?' + norm(e)[:40],)
+
+
+class _PathFlow(Flow):
+    """tracks the abstract path value of locals (pairs ('p', name) -> components) and records the calls that use paths"""
+
+    def __init__(self, prog, func):
+        super().__init__()
+        self.prog, self.func = prog, func
+        self.dom = PathDom(prog, func)
+        self.events = []  # (kind, node, components, state)
+
+    def rec(self, kind, node, comps, st):
+        self.events.append((kind, node, comps, st))
+
+    def on_stmt(self, s, st):
+        if isinstance(s, (ast.Assign, ast.AnnAssign)) and s.value is not None:
+            for t in s.targets if isinstance(s, ast.Assign) else [s.target]:
+                if isinstance(t, ast.Name):
+                    v = self.dom.ev(s.value, st)
+                    st = sset(st, ('p', t.id), v if not all(c.startswith('?') for c in v) or not v else None)
+                elif isinstance(t, (ast.Tuple, ast.List)):
+                    for el in t.elts:
+                        if isinstance(el, ast.Name):
+                            st = sset(st, ('p', el.id), None)
+        elif isinstance(s, ast.AugAssign) and isinstance(s.target, ast.Name):
+            st = sset(st, ('p', s.target.id), None)
+        return (st,)
+
+    def _listdir(self, it):
+        """(listdir call, [endswith constants]) when the iterable derives from os.listdir"""
+        ld = None
+        sfx = []
+        for n in ast.walk(it):
+            if isinstance(n, ast.Call):
+                if _q(self.prog, self.func, n) == 'external:os.listdir' and n.args:
+                    ld = n
+                elif isinstance(n.func, ast.Attribute) and n.func.attr == 'endswith' and n.args:
+                    sfx.append(n.args[0].value if isinstance(n.args[0], ast.Constant) else None)
+        return ld, sfx
+
+    def on_for(self, node, st):
+        ld, sfx = self._listdir(node.iter)
+        if ld is not None and isinstance(node.target, ast.Name):
+            d = self.dom.ev(ld.args[0], st)
+            self.rec('listdir', node, (d, tuple(sfx)), st)
+            return (sset(st, ('p', node.target.id), ('ent:' + '/'.join(d),)),)
+        for n in ast.walk(node.target):
+            if isinstance(n, ast.Name):
+                st = sset(st, ('p', n.id), None)
+        return (st,)
+
+    def on_call(self, call, st):
+        q = _q(self.prog, self.func, call)
+        if q == 'external:open' and call.args:
+            self.rec('open-' + _open_mode(call), call, self.dom.ev(call.args[0], st), st)
+        elif q == 'external:os.makedirs' and call.args:
+            self.rec('makedirs', call, self.dom.ev(call.args[0], st), st)
+        elif q == Q_LOAD:
+            self.rec('load', call, None, st)
+        return (st,)
+
+    def on_test(self, e, st):
+        if isinstance(e, ast.Call) and _q(self.prog, self.func, e) in ('external:os.path.isdir', 'external:os.path.exists') and e.args:
+            return self.on_dir_test(e, self.dom.ev(e.args[0], st), st)
+        return (st,), (st,)
+
+    def on_dir_test(self, e, comps, st):
+        self.rec('isdir', e, comps, st)
+        return (st,), (st,)
+
+
+def _one(values, what):
+    vals = set(values)
+    if len(vals) != 1:
+        return None, f'{what} has {len(vals)} different shapes: {sorted(map(str, vals))[:4]}'
+    return vals.pop(), None
+
+
+def _day_path_of_find(prog, lf):
+    """(components of the directory handed to _load by find, cursor text, error, the recording flow)"""
+    ff = prog.func(Q_FIND)
+    fl = _PathFlow(prog, ff)
+    fl.run(ff.node, frozenset())
+    jp = _journal_param(prog, lf)
+    vals = []
+    for kind, call, _c, st in fl.events:
+        if kind == 'load':
+            b = _bind(call, lf.f)
+            if b is None or jp not in b:
+                return None, None, f'{norm(call)}: the directory argument of _load cannot be identified', fl
+            vals.append(fl.dom.ev(b[jp], st))
+    if not vals:
+        raise AnalysisError('chronicle.find no longer calls _load')
+    comps, err = _one(vals, 'the directory handed to _load')
+    if err:
+        return None, None, err, fl
+    srcs = {c.split('@')[1] for c in comps if '@' in c}
+    cursor = srcs.pop() if len(srcs) == 1 else None
+    return comps, cursor, None, fl
+
+
+def _journal_param(prog, lf):
+    """the parameter of _load that is listed with os.listdir"""
+    for c in lf.f.calls():
+        if _q(prog, lf.f, c) == 'external:os.listdir' and c.args and isinstance(c.args[0], ast.Name) and c.args[0].id in lf.f.params():
+            return c.args[0].id
+    raise AnalysisError('chronicle._load no longer lists a directory given as a parameter')
+
+
+def _load_status_by_flag(prog, lf, flag):
+    """{True: set of status literals compared when the flag parameter is true, False: ...}, problems"""
+    f = lf.f
+    node = desugar(f.node)
+    seen = {True: set(), False: set()}
+    problems = []
+
+    class L(Flow):
+        def on_stmt(self, s, st):
+            if isinstance(s, ast.Assign) and len(s.targets) == 1 and isinstance(s.targets[0], ast.Name):
+                v = s.value.value if isinstance(s.value, ast.Constant) and isinstance(s.value.value, str) else None
+                st = sset(st, ('c', s.targets[0].id), v)
+            return (st,)
+
+        def on_test(self, e, st):
+            if _is_name(e, flag):
+                return ((st,), ()) if sget(st, 'flag') else ((), (st,))
+            if isinstance(e, ast.Compare):
+                T, F = lf.atoms(e)
+                for fact in T + F:
+                    if fact[0] == 'status':
+                        other = [x for x in [e.left] + e.comparators if not lf._status_sub(x)]
+                        lit = None
+                        if len(other) == 1 and isinstance(other[0], ast.Constant):
+                            lit = other[0].value
+                        elif len(other) == 1 and isinstance(other[0], ast.Name):
+                            lit = sget(st, ('c', other[0].id))
+                        if lit is None:
+                            problems.append(e)
+                        else:
+                            seen[sget(st, 'flag')].add(lit)
+            return (st,), (st,)
+
+    for v in (True, False):
+        L().run(node, frozenset({('flag', v)}))
+    return seen, problems
+
+
+def _rule3(ctx, rep, lf, names):
+    prog = ctx.prog
+    fa = prog.func(Q_APPEND)
+    ff = prog.func(Q_FIND)
+    rep.analysed(fa, ff, lf.f)
+    with rep.rule(
+        'R-C18-3',
+        'writer and readers agree on the journal layout (root/chronicles/YYYY/MM/DD/<run id>.json, zero padded), on the date text and on the outcome words',
+        floor=7,
+        breaks='entries are filed where the day walk of find never looks (or are filtered out by name), so recorded runs are not returned',
+    ) as r:
+        # writer side
+        wa = _PathFlow(prog, fa)
+        wa.run(fa.node, frozenset())
+        wfiles = [c for k, _n, c, _s in wa.events if k == 'open-w']
+        r.instance()
+        wfile, err = _one(wfiles, 'the path chronicle.append writes') if wfiles else (None, 'chronicle.append opens nothing for writing')
+        if err or not wfile or any(c.startswith('?') for c in wfile) or not wfile[-1].startswith('fn:'):
+            r.fail(f'{fa.qname}:journal-path', where(fa), err or f'the path written by chronicle.append has a shape that is not understood: {wfile}')
+            wfile = None
+        else:
+            r.ok(f'{fa.qname}:journal-path', f'writes {"/".join(_strip(wfile))}', where(fa))
+        # reader side
+        rdir, cursor, err, _fl = _day_path_of_find(prog, lf)
+        r.instance()
+        if err or rdir is None or any(c.startswith('?') for c in rdir):
+            r.fail(f'{ff.qname}:day-path', where(ff), err or f'the directory find hands to _load has a shape that is not understood: {rdir}')
+            rdir = None
+        else:
+            r.ok(f'{ff.qname}:day-path', f'reads {"/".join(_strip(rdir))} (cursor {cursor})', where(ff))
+        r.extra['writer_path'] = list(wfile or ())
+        r.extra['reader_dir'] = list(rdir or ())
+        # agreement of the directory part
+        r.instance()
+        if wfile is not None and rdir is not None:
+            w, d = _strip(wfile[:-1]), _strip(rdir)
+            r.check(
+                w == d and d[-3:] == ('Y', 'M2', 'D2') and cursor is not None,
+                f'{ff.qname}:layout-agreement',
+                where(ff),
+                'both sides: ' + '/'.join(d),
+                f'chronicle.append files entries under {"/".join(w)} but find looks in {"/".join(d)}'
+                + ('' if cursor is not None else ' (year, month and day are not taken from one cursor value)')
+                + ': a component that is not zero padded / not the same field never matches the directory written',
+            )
+        else:
+            r.fail(f'{ff.qname}:layout-agreement', where(ff), 'layout agreement cannot be established (see the path findings)', nontrivial=False)
+        # _load reads every listed file of exactly that directory, and its name filter accepts what append writes
+        jp = _journal_param(prog, lf)
+        rl = _PathFlow(prog, lf.f)
+        rl.run(lf.f.node, frozenset({(('p', jp), ('$dir',))}))
+        r.instance()
+        lds = [(n, c) for k, n, c, _s in rl.events if k == 'listdir']
+        opens = [(n, c) for k, n, c, _s in rl.events if k.startswith('open-')]
+        okread = bool(lds) and bool(opens) and all(c == ('$dir', 'ent:$dir') for _n, c in opens) and all(c[0] == ('$dir',) for _n, c in lds)
+        r.check(
+            okread and all(k == 'open-r' for k, _n, _c, _s in rl.events if k.startswith('open-')),
+            f'{lf.f.qname}:reads-listed-files',
+            where(lf.f),
+            'opens os.path.join(<dir>, <name>) for the names of os.listdir(<dir>)',
+            f'_load does not simply read the files listed in its directory parameter: opens {[c for _n, c in opens]}',
+        )
+        r.instance()
+        sfx = sorted({s for _n, c in lds for s in c[1]}, key=str)
+        if wfile is not None:
+            tail = wfile[-1][3:]
+            r.check(
+                all(isinstance(s, str) and tail.endswith(s) for s in sfx),
+                f'{lf.f.qname}:name-filter',
+                where(lf.f),
+                f'file names end in {tail!r}; filter {sfx}',
+                f'chronicle.append names its files *{tail} but _load only reads names ending in {sfx}',
+            )
+        else:
+            r.fail(f'{lf.f.qname}:name-filter', where(lf.f), 'the written file name is not understood', nontrivial=False)
+        # date text: the separator append splits at is the one of the ISO text it (or complete) produces
+        r.instance()
+        split_sep, conv_sep = _append_seps(prog)
+        iso = wa.dom.iso_sites
+        r.check(
+            len(iso) == 1 and iso[0][1] and split_sep is not None and conv_sep in (None, split_sep),
+            f'{fa.qname}:date-text',
+            where(fa, iso[0][2] if iso else None),
+            f'date part = text before {split_sep!r} with - replaced by the path separator; datetimes converted with sep={conv_sep!r}',
+            f'chronicle.append converts completion times with isoformat(sep={conv_sep!r}) but takes the date as the text before {split_sep!r}'
+            if iso and iso[0][1]
+            else 'the directory of an entry is not derived as <completed>.split(<sep>)[0].replace("-", os.path.sep)',
+        )
+        # outcome words: what the writer stores (State member names) is what _load compares with
+        r.instance()
+        flag = None
+        for call in calls_to(prog, ff, Q_LOAD):
+            b = _bind(call, lf.f) or {}
+            for p, a in b.items():
+                if p not in (jp,) + lf.window_params() and isinstance(a, ast.Name) and a.id in ff.params():
+                    flag = (p, a.id)
+        if flag is None or names is None:
+            r.fail(f'{lf.f.qname}:outcome-words', where(lf.f), 'the outcome selector of find/_load (or the translation of replies) could not be identified')
+        else:
+            seen, problems = _load_status_by_flag(prog, lf, flag[0])
+            exp = {True: {names['true']}, False: {names['false']}}
+            r.check(
+                not problems and seen == exp,
+                f'{lf.f.qname}:outcome-words',
+                where(lf.f),
+                f'{flag[1]}=True selects {sorted(seen[True])}, False selects {sorted(seen[False])}; the writer stores State.<member>.name',
+                f'_load compares entry["status"] with {sorted(seen[True])} / {sorted(seen[False])} for {flag[1]}=True / False but schedule.complete records '
+                f'{names["true"]!r} for a successful and {names["false"]!r} for a failed run',
+            )
+        r.extra['outcome_param'] = flag[1] if flag else None
+    return rdir, cursor, (flag[1] if flag else None)
+
+
+# ---------------------------------------------------------------------------
+# chronicle.find as a whole: truth table over which of after/before/limit the caller gave
+
+
+def _subst(e, name, repl):
+    class S(ast.NodeTransformer):
+        def visit_Name(self, n):
+            return copy.deepcopy(repl) if n.id == name else n
+
+    return S().visit(copy.deepcopy(e))
+
+
+class _FindFlow(Flow):
+    """state pairs: 'orc' -> (after is None, before is None, limit is None) as given by the caller;
+    ('nn', v) -> v is None now; ('org', v) -> ('param', p) caller's value of parameter p | ('expr', text) | 'none';
+    ('b', v) -> value of a local assigned from a boolean expression"""
+
+    def __init__(self, prog, func):
+        super().__init__()
+        self.prog, self.func = prog, func
+        self.loads = []  # (call, state)
+        self.rets = []  # (return node, state)
+
+    @staticmethod
+    def init(params, orc):
+        st = frozenset({('orc', orc)})
+        for p, isnone in zip((LOWER, UPPER, LIMIT), orc):
+            st = sset(st, ('nn', p), isnone)
+        for p in params:
+            st = sset(st, ('org', p), ('param', p))
+        return st
+
+    def ev(self, e, st):
+        """three-valued boolean value of a condition"""
+        if isinstance(e, ast.Constant):
+            return bool(e.value)
+        if isinstance(e, ast.Name):
+            return sget(st, ('b', e.id))
+        if isinstance(e, ast.UnaryOp) and isinstance(e.op, ast.Not):
+            v = self.ev(e.operand, st)
+            return None if v is None else not v
+        if isinstance(e, ast.BoolOp):
+            vs = [self.ev(v, st) for v in e.values]
+            if isinstance(e.op, ast.And):
+                return False if False in vs else (None if None in vs else True)
+            return True if True in vs else (None if None in vs else False)
+        if isinstance(e, ast.Compare) and len(e.ops) == 1:
+            a, op, b = e.left, e.ops[0], e.comparators[0]
+            if isinstance(op, (ast.Is, ast.IsNot)) and isinstance(b, ast.Constant) and b.value is None and isinstance(a, ast.Name):
+                nn = sget(st, ('nn', a.id))
+                if nn is None:
+                    return None
+                return nn if isinstance(op, ast.Is) else not nn
+            for x, y in ((a, b), (b, a)):
+                if isinstance(x, ast.Name):
+                    org = sget(st, ('org', x.id))
+                    if isinstance(org, tuple) and org[0] == 'expr' and org[1] == norm(y) and not names_in(y) - {'datetime', 'UTC', 'date', 'timezone'}:
+                        # x holds the value of the very same constant constructor expression it is compared with
+                        return isinstance(op, (ast.Eq, ast.GtE, ast.LtE))
+        if isinstance(e, ast.Call) and isinstance(e.func, ast.Name) and e.func.id in ('all', 'any') and len(e.args) == 1:
+            g = e.args[0]
+            if isinstance(g, (ast.GeneratorExp, ast.ListComp)) and len(g.generators) == 1:
+                gen = g.generators[0]
+                if isinstance(gen.iter, (ast.List, ast.Tuple)) and isinstance(gen.target, ast.Name) and not gen.ifs:
+                    vs = [self.ev(_subst(g.elt, gen.target.id, x), st) for x in gen.iter.elts]
+                    if e.func.id == 'all':
+                        return False if False in vs else (None if None in vs else True)
+                    return True if True in vs else (None if None in vs else False)
+        return None
+
+    def on_test(self, e, st):
+        v = self.ev(e, st)
+        if v is True:
+            return (st,), ()
+        if v is False:
+            return (), (st,)
+        return (st,), (st,)
+
+    def on_stmt(self, s, st):
+        if isinstance(s, ast.Assign) and len(s.targets) == 1 and isinstance(s.targets[0], ast.Name):
+            t, v = s.targets[0].id, s.value
+            if isinstance(v, ast.Name):
+                if v.id != t:
+                    st = sset(st, ('org', t), sget(st, ('org', v.id)))
+                    st = sset(st, ('nn', t), sget(st, ('nn', v.id)))
+                    st = sset(st, ('b', t), sget(st, ('b', v.id)))
+            elif isinstance(v, ast.Constant) and v.value is None:
+                st = sset(sset(st, ('org', t), 'none'), ('nn', t), True)
+                st = sset(st, ('b', t), None)
+            elif isinstance(v, ast.Constant) and isinstance(v.value, bool):
+                st = sset(sset(st, ('b', t), v.value), ('org', t), None)
+                st = sset(st, ('nn', t), False)
+            else:
+                st = sset(sset(st, ('org', t), ('expr', norm(v))), ('nn', t), False)
+                st = sset(st, ('b', t), None)
+        elif isinstance(s, ast.AugAssign) and isinstance(s.target, ast.Name):
+            t = s.target.id
+            st = sset(sset(st, ('org', t), ('expr', norm(s))), ('b', t), None)
+        elif isinstance(s, ast.Assign):
+            for t in s.targets:
+                for n in ast.walk(t):
+                    if isinstance(n, ast.Name) and isinstance(n.ctx, ast.Store):
+                        st = sset(sset(sset(st, ('org', n.id), ('expr', norm(s.value))), ('b', n.id), None), ('nn', n.id), None)
+        return (st,)
+
+    def on_call(self, call, st):
+        if _q(self.prog, self.func, call) == Q_LOAD:
+            self.loads.append((call, st))
+        return (st,)
+
+    def on_return(self, node, st):
+        self.rets.append((node, st))
+        return (st,)
+
+
+def _run_find(prog):
+    ff = prog.func(Q_FIND)
+    for p in (LOWER, UPPER, LIMIT):
+        if p not in ff.params():
+            raise AnalysisError(f'chronicle.find no longer has the parameter {p}')
+    node = desugar(ff.node)
+    fl = _FindFlow(prog, ff)
+    inits = {fl.init(ff.params(), (a, b, l)) for a in (True, False) for b in (True, False) for l in (True, False)}
+    fl.run(node, inits)
+    return fl, node
+
+
+def _enclosing_loops(par, node):
+    out = []
+    while node in par:
+        node = par[node]
+        if isinstance(node, (ast.While, ast.For)):
+            out.append(node)
+    return out
+
+
+def _stored_in(node):
+    return {n.id for n in ast.walk(node) if isinstance(n, ast.Name) and isinstance(n.ctx, (ast.Store, ast.Del))}
+
+
+def _org_text(org):
+    return f'`{org[1]}`' if isinstance(org, tuple) else str(org)
+
+
+def _orc_text(orc):
+    a, b, l = orc
+    given = [n for n, isnone in zip((LOWER, UPPER, LIMIT), (a, b, l)) if not isnone]
+    return 'caller gives ' + (', '.join(given) if given else 'nothing')
+
+
+# ---------------------------------------------------------------------------
+# R-C18-4  window bounds are the caller's, and the filter is the strict window
+
+
+class _Filter(Flow):
+    """facts established on the path to each append of the entry in _load"""
+
+    def __init__(self, lf):
+        super().__init__()
+        self.lf = lf
+        self.appends = []  # (call, facts)
+        self.lists = set()
+
+    def on_test(self, e, st):
+        T, F = self.lf.atoms(e)
+        return (st | frozenset(T),), (st | frozenset(F),)
+
+    def on_for(self, node, st):
+        # facts about the previous entry do not carry over to the next one
+        if _is_name(node.target, self.lf.entry_var):
+            return (frozenset(),)
+        return (st,)
+
+    def on_call(self, call, st):
+        f = call.func
+        if isinstance(f, ast.Attribute) and f.attr in ('append', 'extend', 'insert') and isinstance(f.value, ast.Name):
+            if any(_is_name(n, self.lf.entry_var) for a in call.args for n in ast.walk(a)):
+                self.appends.append((call, st))
+                self.lists.add(f.value.id)
+        return (st,)
+
+
+def _rule4(ctx, rep, lf, ffl, fnode):
+    prog = ctx.prog
+    ff = prog.func(Q_FIND)
+    with rep.rule(
+        'R-C18-4',
+        'the window _load filters with is the strict (after, before) of the caller of find on every day visited',
+        floor=4,
+        breaks='entries inside the requested window are dropped (or entries outside it returned) depending on the time of day of a bound',
+    ) as r:
+        lo_p, up_p = lf.window_params()
+        # (a) the filter in _load
+        flt = _Filter(lf)
+        flt.run(lf.f.node, frozenset())
+        if not flt.appends:
+            raise AnalysisError('chronicle._load no longer appends the entry to a result list')
+        sites = {}
+        for call, st in flt.appends:
+            sites.setdefault(norm(call), (call, []))[1].append(st)
+        for k, (call, sts) in sorted(sites.items()):
+            r.instance()
+            need = {('lower', lo_p, True): f'{lo_p} < completed', ('upper', up_p, True): f'completed < {up_p}'}
+            missing = sorted({txt for fact, txt in need.items() for st in sts if fact not in st})
+            nostatus = any(not any(f[0] == 'status' for f in st) for st in sts)
+            r.check(
+                not missing and not nostatus,
+                f'{lf.f.qname}:{k}',
+                where(lf.f, call),
+                f'dominated by {lo_p} < completed < {up_p} (strict) and the outcome test',
+                f'an entry reaches {k} without '
+                + ', '.join(missing + (['the outcome test'] if nostatus else []))
+                + ' being established (strictly) on the path: entries outside the open window, or of the other outcome, are returned',
+            )
+        # every file and every entry is looked at: no early exit from the loops
+        r.instance()
+        early = [n for lp in lf.f.own_nodes() if isinstance(lp, (ast.For, ast.While)) for n in ast.walk(lp) if isinstance(n, (ast.Break, ast.Continue, ast.Return))]
+        r.check(not early, f'{lf.f.qname}:no-early-exit', where(lf.f, early[0] if early else None), 'loops over files and entries have no break/continue/return', 'a loop of _load is left early: files or entries of the day are skipped (not understood)', nontrivial=False)
+        # (b) what find binds to the window parameters
+        if not ffl.loads:
+            raise AnalysisError('chronicle.find no longer calls _load')
+        par = _parents(fnode)
+        by_call = {}
+        for call, st in ffl.loads:
+            by_call.setdefault(norm(call), (call, []))[1].append(st)
+        for k, (call, sts) in sorted(by_call.items()):
+            b = _bind(call, lf.f)
+            loops = _enclosing_loops(par, call)
+            stored = set().union(*[_stored_in(l) for l in loops]) if loops else set()
+            for which, lp, fp in (('lower', lo_p, LOWER), ('upper', up_p, UPPER)):
+                r.instance()
+                key = f'{ff.qname}:{k}:{which}'
+                a = (b or {}).get(lp)
+                if a is None:
+                    r.fail(key, where(ff, call), f'the {which} window argument of {k} cannot be identified')
+                    continue
+                reasons = []
+                if not isinstance(a, ast.Name):
+                    reasons.append(f'{norm(a)} is not a plain variable (not understood)')
+                else:
+                    if a.id in stored:
+                        reasons.append(f'`{a.id}` is assigned inside the day loop, so it is not the same value on every day visited')
+                    idx = {LOWER: 0, UPPER: 1}[fp]
+                    wrong = sorted({_org_text(sget(st, ('org', a.id))) for st in sts if not sget(st, 'orc')[idx] and sget(st, ('org', a.id)) != ('param', fp)})
+                    if wrong:
+                        reasons.append(f'when the caller gives `{fp}`, the value bound is {', '.join(wrong)} instead of the caller\'s `{fp}`')
+                r.check(
+                    not reasons,
+                    key,
+                    where(ff, call),
+                    f'{which} bound is the caller\'s `{fp}` (default when absent), loop invariant',
+                    f'{which} bound of the window handed to _load: ' + '; '.join(reasons)
+                    + ('. A bound moved back by whole days keeps its time of day: the later part of every earlier day is silently dropped' if which == 'upper' else ''),
+                )
+        r.extra['find_states'] = ffl.visited
+
+
+# ---------------------------------------------------------------------------
+# R-C18-6  order, day walk and truncation
+
+
+def _is_delta(prog, func, e, unit, depth=0):
+    """timedelta(<unit>=1), directly or through a local bound once to it"""
+    if isinstance(e, ast.Name) and depth < 3:
+        vals = assigned_value(func, e.id)
+        return len(vals) == 1 and _is_delta(prog, func, vals[0], unit, depth + 1)
+    if isinstance(e, ast.Call) and _q(prog, func, e) == 'external:datetime.timedelta':
+        if len(e.keywords) == 1 and not e.args and e.keywords[0].arg == unit:
+            return isinstance(e.keywords[0].value, ast.Constant) and e.keywords[0].value.value == 1
+        if unit == 'days' and len(e.args) == 1 and not e.keywords:
+            return isinstance(e.args[0], ast.Constant) and e.args[0].value == 1
+    return False
+
+
+def _step_kind(prog, func, cursor, s):
+    """classify an assignment to the day cursor: 'S1' one day back, 'SM' to the last day of the previous month,
+    'SY' to the last day of the previous year, None = not understood"""
+    if isinstance(s, ast.AugAssign):
+        return 'S1' if isinstance(s.op, ast.Sub) and _is_delta(prog, func, s.value, 'days') else None
+    v = s.value
+    if not (isinstance(v, ast.BinOp) and isinstance(v.op, ast.Sub)):
+        return None
+    if _is_name(v.left, cursor):
+        return 'S1' if _is_delta(prog, func, v.right, 'days') else None
+    a = v.left
+    back = _is_delta(prog, func, v.right, 'days') or _is_delta(prog, func, v.right, 'seconds')
+    if not back:
+        return None
+    # date/datetime(C.year, C.month, 1[, tzinfo=..])  or  (C.year, 1, 1)  or  C.replace(day=1) / C.replace(month=1, day=1)
+    if isinstance(a, ast.Call) and _q(prog, func, a) in ('external:datetime.date', 'external:datetime.datetime') and len(a.args) == 3:
+        if any(k.arg != 'tzinfo' for k in a.keywords):
+            return None
+        y, m, d = a.args
+        if not (isinstance(y, ast.Attribute) and y.attr == 'year' and _is_name(y.value, cursor)):
+            return None
+        if not (isinstance(d, ast.Constant) and d.value == 1):
+            return None
+        if isinstance(m, ast.Attribute) and m.attr == 'month' and _is_name(m.value, cursor):
+            return 'SM'
+        if isinstance(m, ast.Constant) and m.value == 1:
+            return 'SY'
+        return None
+    if isinstance(a, ast.Call) and isinstance(a.func, ast.Attribute) and a.func.attr == 'replace' and _is_name(a.func.value, cursor) and not a.args:
+        kw = {k.arg: k.value for k in a.keywords}
+        if not all(isinstance(x, ast.Constant) for x in kw.values()):
+            return None
+        vals = {k: x.value for k, x in kw.items()}
+        if _is_delta(prog, func, v.right, 'seconds') and not {'hour', 'minute', 'second', 'microsecond'} <= set(vals) and _is_name(a.func.value, cursor):
+            # a datetime cursor: one second before a moment that is not midnight may still be the same day -> only days accepted
+            return None
+        core = {k: x for k, x in vals.items() if k in ('month', 'day')}
+        if core == {'day': 1}:
+            return 'SM'
+        if core == {'month': 1, 'day': 1}:
+            return 'SY'
+    return None
+
+
+class _Walk(_PathFlow):
+    """one iteration of the day loop: which directories were tested absent/present, which were loaded, how the cursor moved"""
+
+    def __init__(self, prog, func, cursor, lf):
+        super().__init__(prog, func)
+        self.cursor, self.lf = cursor, lf
+        self.jp = _journal_param(prog, lf)
+
+    def on_dir_test(self, e, comps, st):
+        fs = sget(st, 'facts', frozenset())
+        return (sset(st, 'facts', fs | {('dir', comps)}),), (sset(st, 'facts', fs | {('nodir', comps)}),)
+
+    def on_call(self, call, st):
+        if _q(self.prog, self.func, call) == Q_LOAD:
+            b = _bind(call, self.lf.f) or {}
+            if self.jp in b:
+                st = sset(st, 'loaded', sget(st, 'loaded', frozenset()) | {self.dom.ev(b[self.jp], st)})
+        return (st,)
+
+    def on_stmt(self, s, st):
+        tg = s.targets if isinstance(s, ast.Assign) else ([s.target] if isinstance(s, (ast.AugAssign, ast.AnnAssign)) else [])
+        if any(isinstance(n, ast.Name) and n.id == self.cursor for t in tg for n in ast.walk(t)):
+            k = _step_kind(self.prog, self.func, self.cursor, s) if len(tg) == 1 and isinstance(tg[0], ast.Name) else None
+            st = sset(st, 'steps', sget(st, 'steps', ()) + ((k, norm(s), s.lineno),))
+            return (st,)
+        return super().on_stmt(s, st)
+
+
+def _day_typed(prog, func, e, seen=()):
+    """expression of calendar-day granularity: X.date(), date(...), or a local only ever assigned such values / moved by whole days"""
+    if isinstance(e, ast.Call) and isinstance(e.func, ast.Attribute) and e.func.attr == 'date' and not e.args and not e.keywords:
+        return True
+    if isinstance(e, ast.Call) and _q(prog, func, e) == 'external:datetime.date':
+        return True
+    if isinstance(e, ast.BinOp) and isinstance(e.op, ast.Sub) and _is_delta(prog, func, e.right, 'days'):
+        return _day_typed(prog, func, e.left, seen)
+    if isinstance(e, ast.Call) and isinstance(e.func, ast.Attribute) and e.func.attr == 'replace' and not e.args and all(k.arg in ('year', 'month', 'day') for k in e.keywords):
+        return _day_typed(prog, func, e.func.value, seen)
+    if isinstance(e, ast.Name) and e.id not in seen and e.id not in func.params():
+        vals = assigned_value(func, e.id)
+        aug = [n for n in func.own_nodes() if isinstance(n, ast.AugAssign) and _is_name(n.target, e.id)]
+        if any(not (isinstance(n.op, ast.Sub) and _is_delta(prog, func, n.value, 'days')) for n in aug):
+            return False
+        return bool(vals) and all(_day_typed(prog, func, v, seen + (e.id,)) for v in vals)
+    if isinstance(e, ast.Name) and e.id in seen:
+        return True
+    return False
+
+
+def _guard_atoms(e, pos=True):
+    """flatten and/or/not -> [(atom, polarity)]"""
+    if isinstance(e, ast.BoolOp):
+        return [x for v in e.values for x in _guard_atoms(v, pos)]
+    if isinstance(e, ast.UnaryOp) and isinstance(e.op, ast.Not):
+        return _guard_atoms(e.operand, not pos)
+    return [(e, pos)]
+
+
+def _rule6(ctx, rep, lf, ffl, fnode, rdir, cursor):
+    prog = ctx.prog
+    ff = prog.func(Q_FIND)
+    with rep.rule(
+        'R-C18-6',
+        'per-day lists are sorted newest first, the walk visits every day from the upper bound\'s down to the lower bound\'s, and the newest entries survive truncation',
+        floor=9,
+        breaks='results come back out of order, a whole day of the window is never visited, or the oldest instead of the newest entries are returned',
+    ) as r:
+        # (a) _load returns its list sorted by completion time, newest first
+        r.instance()
+        f = lf.f
+        rets = [n for n in f.own_nodes() if isinstance(n, ast.Return)]
+        sort_ok, why = False, 'no sort found'
+        key_expr = rev = None
+        for c in f.calls():
+            if call_name(c) == 'sort' and isinstance(c.func, ast.Attribute) and isinstance(c.func.value, ast.Name):
+                if all(isinstance(x.value, ast.Name) and x.value.id == c.func.value.id for x in rets) and rets:
+                    # sorted in place after the last append, then returned
+                    later_appends = [a for a, _s in _Filter_sites(lf) if a.lineno > c.lineno]
+                    if not later_appends:
+                        key_expr = next((k.value for k in c.keywords if k.arg == 'key'), None)
+                        rev = next((k.value for k in c.keywords if k.arg == 'reverse'), None)
+                        sort_ok = True
+            if call_name(c) == 'sorted' and isinstance(c.func, ast.Name) and any(x.value is c for x in rets) and len(rets) == 1:
+                key_expr = next((k.value for k in c.keywords if k.arg == 'key'), None)
+                rev = next((k.value for k in c.keywords if k.arg == 'reverse'), None)
+                sort_ok = True
+        if sort_ok:
+            kf = None
+            if isinstance(key_expr, ast.Lambda):
+                body, kp = key_expr.body, key_expr.args.args[0].arg if key_expr.args.args else None
+            elif key_expr is not None and (kf := prog.func_of(prog.resolve_in(key_expr, f))) is not None:
+                krets = [n for n in kf.own_nodes() if isinstance(n, ast.Return)]
+                body, kp = (krets[0].value if len(krets) == 1 else None), (kf.params()[0] if kf.params() else None)
+                rep.analysed(kf)
+            else:
+                body = kp = None
+            first = body.elts[0] if isinstance(body, ast.Tuple) and body.elts else body
+            if not (first is not None and kp and _is_completed_sub(first, kp)):
+                sort_ok, why = False, 'the primary sort key is not <entry>["timing"]["completed"]'
+            elif not (isinstance(rev, ast.Constant) and rev.value is True):
+                sort_ok, why = False, f'reverse={norm(rev) if rev is not None else "absent"}: the day list is oldest first'
+        r.check(sort_ok, f'{f.qname}:sorted-newest-first', where(f), 'list returned after sort(key=(completed, ...), reverse=True)', f'_load does not return its entries newest first: {why}')
+
+        # (b) the per-day lists are concatenated in walk order into the list that is returned
+        par = _parents(ff.node)
+        loads = calls_to(prog, ff, Q_LOAD)
+        acc = None
+        r.instance()
+        for c in loads:
+            p = par.get(c)
+            a = None
+            if isinstance(p, ast.Call) and isinstance(p.func, ast.Attribute) and p.func.attr == 'extend' and isinstance(p.func.value, ast.Name) and p.args == [c]:
+                a = p.func.value.id
+            elif isinstance(p, ast.AugAssign) and isinstance(p.op, ast.Add) and isinstance(p.target, ast.Name) and p.value is c:
+                a = p.target.id
+            elif isinstance(p, ast.BinOp) and isinstance(p.op, ast.Add) and p.right is c and isinstance(p.left, ast.Name) and isinstance(par.get(p), ast.Assign) and _is_name(par[p].targets[0], p.left.id):
+                a = p.left.id
+            if a is None or (acc is not None and a != acc):
+                r.fail(f'{ff.qname}:{norm(c)}:accumulate', where(ff, c), 'the list returned by _load is not appended to the end of the one result list (extend / += / x = x + ...)')
+                acc = None
+                break
+            acc = a
+        loops = [l for c in loads for l in _enclosing_loops(par, c)]
+        loop = loops[0] if loops and all(l is loops[0] for l in loops) and len(loops) == len(loads) else None
+        if acc is not None:
+            inits = assigned_value(ff, acc)
+            other = [n for n in ast.walk(loop) if isinstance(n, ast.Assign) and any(_is_name(t, acc) for t in n.targets) and not (isinstance(n.value, ast.BinOp) and _is_name(n.value.left, acc))] if loop is not None else []
+            r.check(
+                loop is not None and not other and len([v for v in inits if isinstance(v, ast.List) and not v.elts]) >= 1,
+                f'{ff.qname}:accumulate',
+                where(ff, loads[0]),
+                f'`{acc}` starts empty and only grows at its end by each day\'s list inside one loop',
+                f'`{acc}` is rebound inside the day loop or does not start empty, or the calls of _load are not in one single loop',
+            )
+        if loop is None or not isinstance(loop, ast.While) or loop not in ff.node.body:
+            r.fail(f'{ff.qname}:day-loop', where(ff), 'the day walk is not a single top-level while loop of find (not understood)')
+            return
+
+        # (c) loop guard: stops only when enough entries were collected or the cursor's day is before the lower bound's day
+        lo_p, up_p = lf.window_params()
+        b0 = _bind(loads[0], lf.f) or {}
+        lo_var = b0[lo_p].id if isinstance(b0.get(lo_p), ast.Name) else None
+        up_var = b0[up_p].id if isinstance(b0.get(up_p), ast.Name) else None
+        body_stores = set().union(*[_stored_in(s) for s in loop.body])
+        saw_cursor_atom = False
+        for atom, pos in _guard_atoms(loop.test):
+            names = names_in(atom)
+            key = f'{ff.qname}:guard:{norm(atom)}'
+            if isinstance(atom, ast.Compare) and len(atom.ops) == 1 and isinstance(atom.ops[0], (ast.Is, ast.IsNot)) and isinstance(atom.comparators[0], ast.Constant):
+                continue  # `limit is None`: decided by the truth table below
+            r.instance()
+            if acc and acc in names and isinstance(atom, ast.Compare) and len(atom.ops) == 1:
+                a, op, b = atom.left, atom.ops[0], atom.comparators[0]
+                islen = lambda x: isinstance(x, ast.Call) and isinstance(x.func, ast.Name) and x.func.id == 'len' and len(x.args) == 1 and _is_name(x.args[0], acc)
+                islim = lambda x: isinstance(x, ast.Name) and x.id not in body_stores and any(sget(st, ('org', x.id)) == ('param', LIMIT) for _c, st in ffl.loads)
+                ok = (islen(a) and islim(b) and isinstance(op, (ast.Lt, ast.LtE) if pos else (ast.GtE, ast.Gt))) or (
+                    islim(a) and islen(b) and isinstance(op, (ast.Gt, ast.GtE) if pos else (ast.LtE, ast.Lt))
+                )
+                r.check(ok, key, where(ff, atom), 'the walk continues while fewer than `limit` entries were collected', f'loop condition {norm(atom)} is not "fewer than the caller\'s limit collected": the walk may stop before the newest `limit` entries are in hand')
+            elif names & body_stores:
+                saw_cursor_atom = True
+                ok = False
+                if isinstance(atom, ast.Compare) and len(atom.ops) == 1 and cursor is not None:
+                    a, op, b = atom.left, atom.ops[0], atom.comparators[0]
+                    form = None  # (cursor side, lower side) under the meaning  cursor side >= lower side
+                    if pos and isinstance(op, ast.GtE):
+                        form = (a, b)
+                    elif pos and isinstance(op, ast.LtE):
+                        form = (b, a)
+                    elif not pos and isinstance(op, ast.Lt):
+                        form = (a, b)  # not (cursor < lower)
+                    elif not pos and isinstance(op, ast.Gt):
+                        form = (b, a)  # not (lower > cursor)
+                    if form is not None:
+                        cur_side, low_side = form
+                        ok = (
+                            cursor in names_in(cur_side)
+                            and _day_typed(prog, ff, cur_side)
+                            and isinstance(low_side, ast.Call)
+                            and isinstance(low_side.func, ast.Attribute)
+                            and low_side.func.attr == 'date'
+                            and not low_side.args
+                            and _is_name(low_side.func.value, lo_var)
+                            and lo_var not in body_stores
+                        )
+                r.check(
+                    ok,
+                    key,
+                    where(ff, atom),
+                    'the walk continues while the cursor\'s calendar day >= the lower bound\'s calendar day',
+                    f'loop condition {norm(atom)} compares the moving cursor with the lower bound at a finer granularity than a day (or not with >=): '
+                    'the walk ends as soon as the cursor\'s time of day falls below the bound\'s, so the lower bound\'s own day is never visited '
+                    'when the bound\'s time of day is later than the cursor\'s (accepted form: <cursor day> >= <lower>.date())',
+                )
+            else:
+                r.fail(key, where(ff, atom), f'loop condition {norm(atom)} is not understood: it may end the walk before every day of the window was visited')
+        if not saw_cursor_atom:
+            r.note('the loop condition does not mention the cursor (termination is not decided here)')
+
+        # (d) one iteration: the cursor's day is loaded or shown absent, and the cursor moves back without jumping over a day that may exist
+        if rdir is None or cursor is None:
+            r.instance()
+            r.fail(f'{ff.qname}:walk', where(ff), 'the day directory / cursor of the walk is not understood (see R-C18-3)', nontrivial=False)
+        else:
+            idx = ff.node.body.index(loop)
+            pre = _PathFlow(prog, ff)
+            o = pre.block(ff.node.body[:idx], {frozenset()})
+            heads = {frozenset((k, v) for k, v in st if isinstance(k, tuple) and k[0] == 'p' and k[1] not in body_stores) for st in o.normal}
+            wk = _Walk(prog, ff, cursor, lf)
+            ob = wk.block(loop.body, heads)
+            r.extra['walk_states'] = wk.visited
+            ends = ob.normal | ob.cont
+            if ob.brk or ob.ret:
+                r.instance()
+                r.fail(f'{ff.qname}:walk-early-exit', where(ff, loop), 'the day loop is left from inside its body (break/return): not understood')
+            DAY, MONTH, YEAR = rdir, rdir[:-1], rdir[:-2]
+            verdicts = {}
+            for st in ends:
+                steps = sget(st, 'steps', ())
+                facts = sget(st, 'facts', frozenset())
+                loaded = sget(st, 'loaded', frozenset())
+                absent = {c for k, c in facts if k == 'nodir'}
+                desc = f'absent={sorted("/".join(_strip(c)[2:]) for c in absent)} loaded={bool(loaded)}'
+                if len(steps) != 1:
+                    k = f'{ff.qname}:walk:{"; ".join(s[1] for s in steps) or "no-step"}'
+                    verdicts.setdefault(k, [steps[0][2] if steps else loop.lineno, []])[1].append(
+                        f'an iteration path ({desc}) moves the cursor {len(steps)} times: the walk never ends or jumps over a day'
+                    )
+                    continue
+                kind, text, line = steps[0]
+                k = f'{ff.qname}:walk:{text}'
+                v = verdicts.setdefault(k, [line, []])
+                if kind is None:
+                    v[1].append(f'cursor step `{text}` is not understood (accepted: one day back; last day of the previous month / year)')
+                elif kind == 'S1' and not (DAY in loaded or absent & {DAY, MONTH, YEAR}):
+                    v[1].append(f'the cursor leaves a day ({desc}) whose directory was neither loaded nor shown to be absent: its entries are never returned')
+                elif kind == 'SM' and not absent & {MONTH, YEAR}:
+                    v[1].append(f'the cursor jumps to the previous month on a path ({desc}) that did not show the month directory absent: existing days are skipped')
+                elif kind == 'SY' and not absent & {YEAR}:
+                    v[1].append(f'the cursor jumps to the previous year on a path ({desc}) that did not show the year directory absent: existing days are skipped')
+                if DAY in loaded and ('dir', DAY) not in facts and ('nodir', DAY) not in facts:
+                    pass  # _load on a missing directory raises; not a history loss
+            if not ends:
+                r.instance()
+                r.fail(f'{ff.qname}:walk', where(ff, loop), 'no path reaches the end of an iteration of the day loop')
+            for k, (line, msgs) in sorted(verdicts.items()):
+                r.instance()
+                r.check(not msgs, k, f'{ff.module.relpath}:{line}', 'step consistent with what the iteration established about the directories', '; '.join(sorted(set(msgs))))
+            # the walk starts on the upper bound's day
+            r.instance()
+            outside = [n for s in ff.node.body[:idx] for n in ast.walk(s) if isinstance(n, ast.Assign) and any(_is_name(t, cursor) for t in n.targets)]
+            if cursor == up_var:
+                start_ok = True  # the cursor is the upper bound variable itself (R-C18-4 then objects to it being moved)
+            else:
+                start_ok = len(outside) == 1 and (
+                    _is_name(outside[0].value, up_var)
+                    or (
+                        isinstance(outside[0].value, ast.Call)
+                        and isinstance(outside[0].value.func, ast.Attribute)
+                        and outside[0].value.func.attr == 'date'
+                        and _is_name(outside[0].value.func.value, up_var)
+                    )
+                )
+            r.check(start_ok, f'{ff.qname}:walk-start', where(ff, outside[0] if outside else loop), f'cursor `{cursor}` starts on the day of `{up_var}`', f'the cursor `{cursor}` does not start as `{up_var}` / `{up_var}.date()`: the newest day(s) of the window are not visited')
+
+        # (e) truncation: with no lower bound from the caller the newest `limit` entries are returned
+        if not ffl.rets:
+            raise AnalysisError('chronicle.find has no return')
+        groups = {}
+        for node, st in ffl.rets:
+            orc = sget(st, 'orc')
+            if not orc[0]:
+                continue  # the caller gave `after`: outside the truncation clause of the property
+            groups.setdefault(norm(node), (node, []))[1].append(st)
+        for k, (node, sts) in sorted(groups.items()):
+            r.instance()
+            v = node.value
+            bad = []
+            for st in sts:
+                orc = sget(st, 'orc')
+                ok = False
+                if isinstance(v, ast.Subscript) and _is_name(v.value, acc) and isinstance(v.slice, ast.Slice) and v.slice.step is None:
+                    lo, hi = v.slice.lower, v.slice.upper
+                    lo_ok = lo is None or (isinstance(lo, ast.Constant) and lo.value in (0, None))
+                    hi_ok = isinstance(hi, ast.Name) and (sget(st, ('org', hi.id)) == ('param', LIMIT))
+                    ok = lo_ok and hi_ok
+                elif _is_name(v, acc) and orc[2]:
+                    ok = True  # no limit given: everything collected
+                if not ok:
+                    bad.append(_orc_text(orc))
+            r.check(
+                not bad,
+                f'{ff.qname}:{k}',
+                where(ff, node),
+                f'reached with no lower bound from the caller: returns the first `limit` of the newest-first list `{acc}`',
+                f'`{k}` is reached when {sorted(set(bad))} (no lower bound): it does not return `{acc}[:limit]` with the caller\'s limit, i.e. not the newest entries',
+            )
+        if not groups:
+            r.instance()
+            r.fail(f'{ff.qname}:truncation', where(ff), 'no return is reachable when the caller gives no lower bound')
+
+
+def _Filter_sites(lf):
+    flt = _Filter(lf)
+    flt.run(lf.f.node, frozenset())
+    return flt.appends
+
+
+# ---------------------------------------------------------------------------
+# R-C18-5  endpoint parameters reach the query
+
+
+class _Taint(Flow):
+    """('t', local) -> set of handler parameters the local's value depends on"""
+
+    def __init__(self, prog, func, target):
+        super().__init__()
+        self.prog, self.func, self.target = prog, func, target
+        self.calls = []  # (call, {callee parameter: frozenset of handler parameters}, bound?)
+
+    def deps(self, e, st):
+        out = set()
+        for n in names_in(e):
+            out |= sget(st, ('t', n), frozenset())
+        return frozenset(out)
+
+    def on_stmt(self, s, st):
+        if isinstance(s, (ast.Assign, ast.AnnAssign)) and s.value is not None:
+            d = self.deps(s.value, st)
+            for t in s.targets if isinstance(s, ast.Assign) else [s.target]:
+                for n in ast.walk(t):
+                    if isinstance(n, ast.Name) and isinstance(n.ctx, ast.Store):
+                        st = sset(st, ('t', n.id), d)
+        elif isinstance(s, ast.AugAssign) and isinstance(s.target, ast.Name):
+            st = sset(st, ('t', s.target.id), self.deps(s.value, st) | sget(st, ('t', s.target.id), frozenset()))
+        return (st,)
+
+    def on_for(self, node, st):
+        d = self.deps(node.iter, st)
+        for n in ast.walk(node.target):
+            if isinstance(n, ast.Name):
+                st = sset(st, ('t', n.id), d)
+        return (st,)
+
+    def on_call(self, call, st):
+        if _q(self.prog, self.func, call) == self.target:
+            b = _bind(call, self.prog.func(self.target))
+            self.calls.append((call, None if b is None else {p: self.deps(a, st) for p, a in b.items()}, b))
+        return (st,)
+
+
+def _rule5(ctx, rep, outcome_param):
+    prog = ctx.prog
+    ff = prog.func(Q_FIND)
+    window = [p for p in ff.params() if p != outcome_param]
+    with rep.rule(
+        'R-C18-5',
+        'every request parameter of a history endpoint that names a window parameter of chronicle.find (after/before/limit) flows into that argument of the query; the endpoint asks for its own outcome',
+        floor=9,
+        breaks='the endpoint silently ignores a bound the client sent and answers with entries outside the requested window',
+    ) as r:
+        n_handlers = 0
+        for uri, hexpr, m, reg in endpoints(prog):
+            hf = prog.func_of(prog.resolve_expr(hexpr, m))
+            if hf is None or not calls_to(prog, hf, Q_FIND):
+                continue
+            n_handlers += 1
+            rep.analysed(hf)
+            hp = hf.params()
+            fl = _Taint(prog, hf, Q_FIND)
+            fl.run(hf.node, frozenset({(('t', p), frozenset({p})) for p in hp}))
+            for q in window:
+                if q not in hp:
+                    continue
+                r.instance()
+                key = f'{hf.qname}:{q}'
+                bad = []
+                for call, deps, _b in fl.calls:
+                    if deps is None:
+                        bad.append(f'{norm(call)[:60]} uses * / ** arguments (not understood)')
+                    elif q not in deps:
+                        bad.append(f'`{q}` is not passed: chronicle.find runs with its default for `{q}`')
+                    elif q not in deps[q]:
+                        bad.append(f'the argument for `{q}` does not depend on the request parameter `{q}`')
+                r.check(
+                    bool(fl.calls) and not bad,
+                    key,
+                    where(hf, fl.calls[0][0] if fl.calls else None),
+                    f'request parameter `{q}` reaches chronicle.find({q}=...) on every path',
+                    f'endpoint {uri}: request parameter `{q}` is declared by {hf.name} but ' + '; '.join(sorted(set(bad))),
+                )
+            # dead store: a parameter that is parsed (re-assigned from itself) and then never read again
+            for p in hp:
+                parsed = [n for n in hf.own_nodes() if isinstance(n, ast.Assign) and any(_is_name(t, p) for t in n.targets) and p in names_in(n.value)]
+                if not parsed or p in window:
+                    continue
+                r.instance()
+                inside = {id(n) for a in parsed for n in ast.walk(a)}
+                reads = [n for n in ast.walk(hf.node) if isinstance(n, ast.Name) and n.id == p and isinstance(n.ctx, ast.Load) and id(n) not in inside]
+                r.check(bool(reads), f'{hf.qname}:{p}', where(hf, parsed[0]), f'parsed request parameter `{p}` is read afterwards', f'endpoint {uri}: request parameter `{p}` is parsed by {hf.name} and never read again (dead store): the value the client sent has no effect', nontrivial=False)
+            # the endpoint named after an outcome asks for that outcome
+            word = (uri or '').rstrip('/').rsplit('/', 1)[-1]
+            want = {'failed': False, 'succeeded': True}.get(word)
+            if want is not None and outcome_param is not None:
+                r.instance()
+                vals = [b.get(outcome_param) if b else None for _c, _d, b in fl.calls]
+                default = None
+                a = ff.node.args
+                pos = a.posonlyargs + a.args
+                if outcome_param in [x.arg for x in pos]:
+                    i = [x.arg for x in pos].index(outcome_param) - (len(pos) - len(a.defaults))
+                    default = a.defaults[i] if i >= 0 else None
+                vals = [v if v is not None else default for v in vals]
+                r.check(
+                    bool(vals) and all(isinstance(v, ast.Constant) and v.value is want for v in vals),
+                    f'{hf.qname}:{outcome_param}',
+                    where(hf, fl.calls[0][0] if fl.calls else None),
+                    f'endpoint {uri} queries with {outcome_param}={want}',
+                    f'endpoint {uri} queries chronicle.find with {outcome_param}={[norm(v) if v is not None else None for v in vals]} instead of {want}',
+                )
+        r.extra['history_endpoints'] = n_handlers
+        if n_handlers < 3:
+            raise AnalysisError(f'only {n_handlers} registered endpoints call chronicle.find (failed, succeeded and df_model/statistics expected)')
+
+
+def check(ctx):
+    rep = Report(
+        PID,
+        ctx.tier,
+        ctx.prog,
+        'Decides from the source of pl/logger/chronicle.py, pl/schedule.py (complete), pl/farm.py (Hand._res/_translate) and the '
+        'registered history endpoints of fe/api: (1) must-call/exactly-once: every path of complete reaches chronicle.append once with a '
+        'well-formed entry, every found reply calls complete once; (2) typestate of the list append writes back (read from the same path, '
+        'plus the entry once, read before truncation); (3) shape agreement of the journal path, date text, file suffix and outcome words '
+        'between writer and readers; (4) the window filter is strict and its bounds are the caller\'s values on every day visited '
+        '(loop invariance + path-sensitive origin over the 8 combinations of given arguments); (5) taint of request parameters into the '
+        'query arguments; (6) sort order, per-iteration day-walk invariant (day loaded or shown absent; step justified by what was shown '
+        'absent), loop guard at day granularity, truncation truth table. Not decided: durability of the in-place JSON rewrite, '
+        'time-zone handling of bounds, concurrent appends, the "oldest" (after+limit) mode which the property does not cover.',
+        assumptions=[
+            'ISO texts of one format/offset order like their datetimes; str(datetime) == isoformat(sep=" ")',
+            'DynamicContent passes request arguments to handler parameters of the same name (fe/basis.py)',
+            'only schedule.find raises the IndexError swallowed in Hand._res',
+        ],
+    )
+    rep.not_decided = [
+        'durability / atomicity of the in-place JSON rewrite in chronicle.append',
+        'time zones: bounds in a zone other than UTC select days by their local date',
+        'the after+limit ("oldest") mode of find, outside the property statement',
+        'completeness of the _load filter beyond its three atoms (an extra guard would drop entries)',
+    ]
+    lf = LoadFacts(ctx.prog)
+    names = _rule1(ctx, rep, lf)
+    _rule2(ctx, rep)
+    rdir, cursor, outcome = _rule3(ctx, rep, lf, names)
+    ffl, fnode = _run_find(ctx.prog)
+    _rule4(ctx, rep, lf, ffl, fnode)
+    _rule5(ctx, rep, outcome)
+    _rule6(ctx, rep, lf, ffl, fnode, rdir, cursor)
+    return rep
+
+
+_CH = 'pl/logger/chronicle.py'
+_API = 'fe/api/schedule.py'
+
+_LOOP_FIXED = """day = before.date()
+    while (limit is None or len(entries) < limit) and day >= after.date():
+        journal = os.path.join(
+            dawgie.context.data_dbs, 'chronicles', str(day.year)
+        )
+        if os.path.isdir(journal):
+            journal = os.path.join(journal, f'{day.month:02d}')
+            if os.path.isdir(journal):
+                journal = os.path.join(journal, f'{day.day:02d}')
+                if os.path.isdir(journal):
+                    entries.extend(_load(after, before, journal, succeeded))
+                day = day - oneday
+            else:
+                day = date(day.year, day.month, 1) - oneday
+        else:
+            day = date(day.year, 1, 1) - oneday"""
+
+_LOOP_RENAMED = """cur = before.date()
+    root = os.path.join(dawgie.context.data_dbs, 'chronicles')
+    while (limit is None or limit > len(entries)) and not cur < after.date():
+        journal = os.path.join(root, f'{cur.year}')
+        if not os.path.isdir(journal):
+            cur = cur.replace(month=1, day=1) - timedelta(days=1)
+            continue
+        journal = os.path.join(journal, str(cur.month).zfill(2))
+        if not os.path.isdir(journal):
+            cur = cur.replace(day=1) - oneday
+            continue
+        journal = os.path.join(journal, '%02d' % cur.day)
+        if os.path.isdir(journal):
+            entries += _load(after, before, journal, succeeded)
+        cur -= oneday"""
+
+# Texts marked (fixed) exist only once pending_fixes/C18-1.diff and C18-2.diff are applied; on the unrepaired tree those
+# variants are skipped (anchor text absent).
+VARIANTS = [
+    # R-C18-1
+    V('complete records failures only', 'B', 'pl/schedule.py', 'complete', 'dawgie.pl.logger.chronicle.append(', 'if status == State.failure:\n        dawgie.pl.logger.chronicle.append(', 'R-C18-1'),
+    V('complete records twice', 'B', 'pl/schedule.py', 'complete', 'history.append(', 'dawgie.pl.logger.chronicle.append({})\n    history.append(', 'R-C18-1'),
+    V('entry without version', 'B', 'pl/schedule.py', 'complete', "'version': job.get('alg').asstring(),", '', 'R-C18-1'),
+    V('entry status is a constant', 'B', 'pl/schedule.py', 'complete', "'status': status.name,", "'status': 'success',", 'R-C18-1'),
+    V('completed stored with T separator', 'B', 'pl/schedule.py', 'complete', 'timing = {k: str(v) for k, v in timing.items()}', 'timing = {k: v.isoformat() for k, v in timing.items()}', 'R-C18-1'),
+    V('completion time never set', 'B', 'pl/schedule.py', 'complete', "timing['completed'] = datetime.datetime.now(datetime.UTC)", "timing['finished'] = datetime.datetime.now(datetime.UTC)", 'R-C18-1'),
+    V('invalid replies not completed', 'B', 'pl/farm.py', 'Hand._res', 'dawgie.pl.schedule.complete(job, msg.runid, inc, msg.timing, state)', 'if state != dawgie.pl.schedule.State.invalid:\n                dawgie.pl.schedule.complete(job, msg.runid, inc, msg.timing, state)', 'R-C18-1'),
+    V('reply completed twice', 'B', 'pl/farm.py', 'Hand._res', 'if state == dawgie.pl.schedule.State.success:', 'dawgie.pl.schedule.complete(job, msg.runid, inc, msg.timing, state)\n            if state == dawgie.pl.schedule.State.success:', 'R-C18-1'),
+    V('broad except around complete', 'B', 'pl/farm.py', 'Hand._res', 'except IndexError:', 'except Exception:', 'R-C18-1'),
+    V('outcome not translated', 'B', 'pl/farm.py', 'Hand._res', 'state = Hand._translate(msg.success)', 'state = dawgie.pl.schedule.State.success', 'R-C18-1'),
+    V('_translate maps None to failure', 'B', 'pl/farm.py', 'Hand._translate', 'if state:', 'if state is not None and not state:', 'R-C18-3'),
+    # R-C18-2
+    V('truncating open before the read', 'B', _CH, 'append', 'if os.path.isfile(journal):', "file = open(journal, 'tw', encoding='utf-8')\n    if os.path.isfile(journal):", 'R-C18-2'),
+    V('list replaced by the new entry', 'B', _CH, 'append', 'entries.append(entry)', 'entries = [entry]', 'R-C18-2'),
+    V('existing journal not read', 'B', _CH, 'append', 'entries = json.load(file)', 'json.load(file)', 'R-C18-2'),
+    V('existence tested on the directory', 'B', _CH, 'append', 'if os.path.isfile(journal):', 'if os.path.isfile(os.path.dirname(journal)):', None),
+    V('entry appended twice', 'B', _CH, 'append', 'entries.append(entry)', 'entries.append(entry)\n    entries.append(entry)', 'R-C18-2'),
+    V('journal written only when new', 'B', _CH, 'append', "with open(journal, 'tw', encoding='utf-8') as file:\n        json.dump(entries, file, indent=2)", "if len(entries) == 1:\n        with open(journal, 'tw', encoding='utf-8') as file:\n            json.dump(entries, file, indent=2)", 'R-C18-2'),
+    # R-C18-3
+    V('month directory un-padded (fixed)', 'B', _CH, 'find', "f'{day.month:02d}'", "f'{day.month}'", 'R-C18-3'),
+    V('day directory un-padded', 'B', _CH, 'find', ".day:02d}'", ".day}'", 'R-C18-3'),
+    V('journal suffix changed in the writer', 'B', _CH, 'append', '.json', '.jsn', 'R-C18-3'),
+    V('datetimes converted with T separator', 'B', _CH, 'append', "value.isoformat(sep=' ')", 'value.isoformat()', None),
+    V('outcome words swapped', 'B', _CH, '_load', "'success' if succeeded else 'failure'", "'failure' if succeeded else 'success'", 'R-C18-3'),
+    V('outcome word misspelt', 'B', _CH, '_load', "else 'failure'", "else 'failed'", 'R-C18-3'),
+    V('chronicle root differs', 'B', _CH, 'find', "'chronicles'", "'chronicle'", 'R-C18-3'),
+    # R-C18-4
+    V('upper bound moved with the cursor again (fixed)', 'B', _CH, 'find', 'day = day - oneday', 'day = day - oneday\n                before = before - oneday', 'R-C18-4'),
+    V('bounds swapped at the call (fixed)', 'B', _CH, 'find', 'day = before.date()\n    ', 'day = before.date()\n    after, before = before, after\n    ', 'R-C18-4'),
+    V('window not strict', 'B', _CH, '_load', 'after < completed < before', 'after <= completed < before', 'R-C18-4'),
+    V('upper test dropped', 'B', _CH, '_load', 'after < completed < before', 'after < completed', 'R-C18-4'),
+    V('outcome test dropped', 'B', _CH, '_load', "and entry['status'] == status", '', 'R-C18-4'),
+    # R-C18-5
+    V('after dropped again (fixed)', 'B', _API, 'failed', 'after=after, before=before', 'before=before', 'R-C18-5'),
+    V('limit parsed but not passed', 'B', _API, 'succeeded', 'limit=limit, ', '', 'R-C18-5'),
+    V('before replaced by now', 'B', _API, 'failed', 'before=before', 'before=datetime.now()', 'R-C18-5'),
+    V('succeeded endpoint asks for failures', 'B', _API, 'succeeded', 'succeeded=True', 'succeeded=False', 'R-C18-5'),
+    # R-C18-6
+    V('per-day list oldest first', 'B', _CH, '_load', 'reverse=True', 'reverse=False', 'R-C18-6'),
+    V('sorted by run id first', 'B', _CH, '_most_recent_first', "entry['timing']['completed'],\n        int(entry['runid']),", "int(entry['runid']),\n        entry['timing']['completed'],", 'R-C18-6'),
+    V('oldest entries kept in the newest case', 'B', _CH, 'find', 'else entries[:limit]', 'else entries[-limit:]', 'R-C18-6'),
+    V('lower day dropped by the guard (fixed)', 'B', _CH, 'find', 'day >= after.date()', 'day > after.date()', 'R-C18-6'),
+    V('guard back to time-of-day comparison (fixed)', 'B', _CH, 'find', 'day >= after.date()', 'datetime(day.year, day.month, day.day, before.hour, tzinfo=UTC) > after', 'R-C18-6'),
+    V('month jump without evidence (fixed)', 'B', _CH, 'find', 'day = day - oneday', 'day = date(day.year, day.month, 1) - oneday', 'R-C18-6'),
+    V('two days per iteration (fixed)', 'B', _CH, 'find', 'day = day - oneday', 'day = day - oneday - oneday', 'R-C18-6'),
+    V('existing day loaded only for one outcome', 'B', _CH, 'find', 'entries.extend(_load(after, before, journal, succeeded))', 'if succeeded:\n                        entries.extend(_load(after, before, journal, succeeded))', 'R-C18-6'),
+    V('day results prepended', 'B', _CH, 'find', 'entries.extend(_load(after, before, journal, succeeded))', 'entries = _load(after, before, journal, succeeded) + entries', 'R-C18-6'),
+    V('walk stops short of the limit', 'B', _CH, 'find', 'len(entries) < limit', 'len(entries) < limit - 1', 'R-C18-6'),
+    V('walk starts a day late (fixed)', 'B', _CH, 'find', 'day = before.date()', 'day = before.date() - oneday', 'R-C18-6'),
+    # benign
+    V('cursor renamed, guards inverted, root hoisted, += (fixed)', 'N', _CH, 'find', _LOOP_FIXED, _LOOP_RENAMED, None),
+    V('_load called with keywords', 'N', _CH, 'find', '_load(after, before, journal, succeeded)', '_load(journal=journal, succeeded=succeeded, before=before, after=after)', None),
+    V('append as concatenation', 'N', _CH, 'append', 'entries.append(entry)', 'entries = entries + [entry]', None),
+    V('append: existence test inverted', 'N', _CH, 'append', "if os.path.isfile(journal):\n        with open(journal, 'rt', encoding='utf-8') as file:\n            entries = json.load(file)", "if not os.path.exists(journal):\n        entries = list()\n    else:\n        with open(journal, encoding='utf-8') as file:\n            entries = json.load(file)", None),
+    V('filter as nested ifs', 'N', _CH, '_load', "if after < completed < before and entry['status'] == status:\n                    entries.append(entry)", "if completed > after and not completed >= before:\n                    if status == entry['status']:\n                        entries.append(entry)", None),
+    V('return as if/else', 'N', _CH, 'find', 'return entries[-limit:] if oldest else entries[:limit]', 'if oldest:\n        return entries[-limit:]\n    return entries[0:limit]', None),
+    V('sorted() instead of sort()', 'N', _CH, '_load', 'entries.sort(key=_most_recent_first, reverse=True)\n    return entries', 'return sorted(entries, key=lambda e: (e["timing"]["completed"], int(e["runid"])), reverse=True)', None),
+    V('handler keywords reordered (fixed)', 'N', _API, 'failed', 'after=after, before=before, limit=limit, succeeded=False', 'succeeded=False, limit=limit, before=before, after=after', None),
+    V('logging added in Hand._res', 'N', 'pl/farm.py', 'Hand._res', 'inc = msg.incarnation if msg.incarnation else', "log.debug('reply for %s', msg.jobid)\n            inc = msg.incarnation if msg.incarnation else", None),
+    V('logging added before the record', 'N', 'pl/schedule.py', 'complete', 'dawgie.pl.logger.chronicle.append(', 'log.debug("recording %s", job.tag)\n    dawgie.pl.logger.chronicle.append(', None),
+    V('queue removal tolerant of a missing job', 'N', 'pl/schedule.py', 'complete', 'que.remove(job)', 'try:\n            que.remove(job)\n        except ValueError:\n            pass', None),
+]
